@@ -41,6 +41,7 @@ struct ShimCfg {
 	uint32_t rate_read_short, rate_write_short, rate_write_err, rate_read_err;
 	uint32_t rate_falloc, rate_unlink, rate_emfile, rate_mmap, rate_epoll_shuffle;
 	int realloc_always_moves;
+	int epoll_no_truncate;      // epoll_shuffle fault only reorders the batch, never shortens it
 	int memcpy_stride_words;    // simk_memcpy yields once per this many words (0 = every word)
 	int64_t epoll_zero_cost_ns; // virtual cost charged per zero-timeout epoll_wait
 	int64_t call_cost_ns;       // virtual cost charged per intercepted call (0 = none)
@@ -60,6 +61,15 @@ struct ShimHooks {
 	void (*on_epoll_wait)(int timeout_ms);
 	// observe every intercepted call (site id) made by a sim task, before it executes
 	void (*on_call)(uint32_t site);
+	// epoll_wait would block for ever (negative timeout, nothing ready, no external event, no other task):
+	// return 0 to make the call return 0 events now; if unset the scheduler's deadlock handling applies
+	int (*on_blocked_forever)(void);
+	// a fault of this kind has just fired
+	void (*on_fault)(int kind);
+	// a read() by a sim task returned n (>= 0) bytes from descriptor fd
+	void (*on_read)(int fd, long n);
+	// pipe() called by a sim task succeeded
+	void (*on_pipe)(int rfd, int wfd);
 };
 ShimHooks &shim_hooks();
 
